@@ -369,6 +369,9 @@ class Incarnation:
         simfs.umount()
         if seams.real_state_fingerprint() != self._real_fp:
             self.world.escapes.append("real numpy global RNG state changed during an incarnation")
+        if seams.SOFT_ESCAPES:
+            self.world.soft_escapes.extend(f"{a} from {b}" for a, b in seams.SOFT_ESCAPES)
+            del seams.SOFT_ESCAPES[:]
         if seams.ESCAPES:
             self.world.escapes.extend(f"{a} from {b}" for a, b in seams.ESCAPES)
             del seams.ESCAPES[:]
@@ -427,6 +430,7 @@ class World:
         self.stats = {}
         self.violations = []
         self.escapes = []
+        self.soft_escapes = []
         self.rng_runs = []
         self.n_inc = 0
         self.probes = {}
